@@ -370,6 +370,52 @@ func QuoteKeyHex(key string, dq bool, mode int) string {
 	return b.String()
 }
 
+// QuoteKeyLoneSurrogates spells a key that contains U+FFFD with every U+FFFD written as an UNPAIRED surrogate
+// escape (JSON-style decoding turns each into U+FFFD); the other characters are written raw (escaped as
+// QuoteKey does) or as \uXXXX escapes as pick decides. A high surrogate is never followed by a low one,
+// so no pair forms. pick(n) returns a number in [0,n).
+func QuoteKeyLoneSurrogates(key string, dq bool, pick func(n int) int) string {
+	q := byte('\'')
+	if dq {
+		q = '"'
+	}
+	var b strings.Builder
+	b.WriteByte(q)
+	prevHigh := false
+	for _, r := range key {
+		if r == 0xFFFD {
+			var u int
+			if prevHigh || pick(2) == 0 {
+				u = 0xd800 + pick(0x400) // high: never completes a pair
+				prevHigh = true
+			} else {
+				u = 0xdc00 + pick(0x400) // low not preceded by a high
+				prevHigh = false
+			}
+			if pick(2) == 0 {
+				fmt.Fprintf(&b, `\u%04x`, u)
+			} else {
+				fmt.Fprintf(&b, `\u%04X`, u)
+			}
+			continue
+		}
+		if prevHigh || pick(2) == 0 {
+			// after an unpaired high surrogate the next character is written as an escape too (the case a decoder
+			// that consumes "the second escape of the pair" gets wrong) - unless it needs a surrogate pair itself
+			if r < 0x10000 {
+				fmt.Fprintf(&b, `\u%04x`, r)
+				prevHigh = false
+				continue
+			}
+		}
+		prevHigh = false
+		e := QuoteKey(string(r), dq)
+		b.WriteString(e[1 : len(e)-1])
+	}
+	b.WriteByte(q)
+	return b.String()
+}
+
 // Text renders canonically.
 func (p *Path) Text() string {
 	s, _ := p.Render(Canon)
